@@ -297,6 +297,15 @@ func Mutate(t *rapid.T, root *JV) Mutation {
 	case jStr:
 		kinds = append(kinds, "byte-field", "byte-field", "invalid-utf8", "long-string")
 	}
+	if n.v.Kind == jObj {
+		// a fee info: set the other member of its fee-type oneof as well
+		for _, kv := range n.v.Obj {
+			if kv.K == "basis_points" || kv.K == "amount" || kv.K == "basisPoints" {
+				kinds = append(kinds, "oneof-sibling", "oneof-sibling", "oneof-sibling", "oneof-sibling")
+				break
+			}
+		}
+	}
 	if n.key == "@type" {
 		kinds = []string{"type-url", "type-url", "type-url", "delete", "null", "wrong-type"}
 	}
@@ -345,6 +354,25 @@ func Mutate(t *rapid.T, root *JV) Mutation {
 			} else {
 				n.v.Obj = append(n.v.Obj, JKV{kv.K, other})
 			}
+		}
+	case "oneof-sibling":
+		has := map[string]bool{}
+		for _, kv := range n.v.Obj {
+			has[kv.K] = true
+		}
+		var kv JKV
+		switch {
+		case !has["amount"]:
+			kv = JKV{"amount", JRaw(pick(t, "mut/oneof/amount", []string{`{"value":"7"}`, `{"value":"1"}`, `null`, `{}`}))}
+		case !has["basis_points"]:
+			kv = JKV{pick(t, "mut/oneof/name", []string{"basis_points", "basisPoints"}), JRaw(pick(t, "mut/oneof/bps", []string{`{"value":100}`, `{"value":1}`, `null`, `{}`}))}
+		default:
+			kv = JKV{"basisPoints", JRaw(`{"value":5}`)}
+		}
+		if chance(t, "mut/oneof/front", 50) {
+			n.v.Obj = append([]JKV{kv}, n.v.Obj...)
+		} else {
+			n.v.Obj = append(n.v.Obj, kv)
 		}
 	case "empty-object":
 		n.v.Obj = nil
